@@ -115,10 +115,10 @@ def run_case(rng, tier, idx):
         c.judge('sub-intervals tiling the width add up to the full matrix', ratio * 1e-9, 1e-9,
                 data={'cuts': cuts, 'entry': ij, 'sum': bs[ij], 'full': bf[ij]})
     # the same object after its definition changed: k0 must be the energy Hessian of the panel as it is defined NOW
-    if d['model'] != 'kpanel' and rng.random() < 0.3:
+    if rng.random() < 0.3:
         import copy
         d2 = copy.deepcopy(d)
-        what = str(rng.choice(['a', 'b', 'flags', 'swap_mn', 'thickness', 'angles', 'offset']))
+        what = str(rng.choice(['a', 'b', 'flags', 'swap_mn', 'thickness', 'angles', 'offset', 'radius', 'cone_angle']))
         l2 = d2['lam']
         if what == 'a':
             d2['a'] = d['a'] * float(rng.uniform(0.6, 1.6)); p.a = d2['a']
@@ -138,6 +138,10 @@ def run_case(rng, tier, idx):
             l2['stack'] = [th + dth for th in l2['stack']]; p.stack = list(l2['stack'])
         elif what == 'offset':
             l2['offset'] = float(rng.uniform(-2, 2) * sum(l2['plyts'])); p.offset = l2['offset']
+        elif what == 'radius' and 'r' in d:
+            d2['r'] = d['r'] * float(rng.uniform(0.5, 3.0)); p.r = d2['r']
+        elif what == 'cone_angle' and d['model'] == 'kpanel':
+            d2['alphadeg'] = float(rng.uniform(0, 50)) if rng.random() < 0.8 else 0.0; p.alphadeg = d2['alphadeg']
         else:
             what = 'none'
         if what != 'none':
@@ -148,15 +152,22 @@ def run_case(rng, tier, idx):
             except Exception as e:
                 return c.reject('%s in calc_k0 after redefinition (%s): %s' % (type(e).__name__, what, str(e)[:100]))
             b2, _ = energy.block(K2, d['row0'], size_p)
-            Ko2, S2 = oracle_k0(p, d2)
-            tol = TOL * gen.subinterval_amplification(d2)
+            if d['model'] == 'kpanel':
+                from ..oracles import conical
+                twin = gen.build_panel(d2)      # the sectioned oracle reads the derived geometry from a fresh, evaluated twin
+                twin.calc_k0(size=d['size'], row0=d['row0'], col0=d['row0'], silent=True)
+                Ko2, S2 = conical.k0_oracle(twin, d2)
+                tol = 1e-9 * gen.subinterval_amplification(d2)
+            else:
+                Ko2, S2 = oracle_k0(p, d2)
+                tol = TOL * gen.subinterval_amplification(d2)
             ratio, ij = entrywise_excess(b2, Ko2, S2, tol)
             c.judge('k0 of the redefined object equals the energy Hessian of the new definition', ratio * tol, tol,
                     data={'what': what, 'entry': ij, 'code': b2[ij], 'oracle': Ko2[ij]})
     # constant pre-load adds exactly the matching initial-stress matrix
     if rng.random() < 0.35:
         c.tag('clause:preload')
-        N = [float(x) for x in rng.normal(size=3) * 10 ** rng.uniform(0, 5)]
+        N = [0.0 if x is None else x for x in gen.load_triple(rng, scale=float(10 ** rng.uniform(0, 5)), allow_none=False)]
         p1 = gen.build_panel(d)
         p1.Nxx_cte, p1.Nyy_cte, p1.Nxy_cte = N
         K1 = p1.calc_k0(size=d['size'], row0=d['row0'], col0=d['row0'], silent=True).toarray()
